@@ -23,7 +23,15 @@ MACROS = ["FASTOR_USE_HADD", "FASTOR_MATMUL_OUTER_BLOCK_SIZE=1", "FASTOR_MATMUL_
           "FASTOR_MATMUL_INNER_BLOCK_SIZE=1", "FASTOR_MATMUL_INNER_BLOCK_SIZE=2", "FASTOR_MATMUL_INNER_BLOCK_SIZE=3", "FASTOR_MATMUL_INNER_BLOCK_SIZE=4",
           "FASTOR_MATMUL_INNER_BLOCK_SIZE=5", "FASTOR_TRANS_OUTER_BLOCK_SIZE=2", "FASTOR_TRANS_INNER_BLOCK_SIZE=2", "FASTOR_DONT_PERFORM_OP_MIN",
           "FASTOR_USE_VECTORISED_EXPR_ASSIGN", "CONTRACT_OPT=-1", "CONTRACT_OPT=1", "CONTRACT_OPT=2", "FASTOR_ZERO_INITIALISE",
-          "FASTOR_DISPATCH_DIV_TO_MUL_EXPR", "FASTOR_DISABLE_SPECIALISED_CTR", "FASTOR_ENABLE_RUNTIME_CHECKS=1", "FASTOR_COPY_EXPR"]
+          "FASTOR_DISPATCH_DIV_TO_MUL_EXPR", "FASTOR_DISABLE_SPECIALISED_CTR", "FASTOR_ENABLE_RUNTIME_CHECKS=1"]
+# FASTOR_COPY_EXPR (listed, commented out, in macros.h) is not among the tuning macros the property names and is NOT varied: with it
+# expression nodes hold copies, so the address-based does_alias() of staged assignments can no longer see the destination (DESIGN 7.6)
+# which owners a macro can influence (a macro is only varied over the corpus entries of these owners; "*" = all)
+MACRO_OWNERS = {"FASTOR_USE_HADD": "*", "FASTOR_MATMUL_OUTER_BLOCK_SIZE": ("c01", "c09", "c17", "c10", "c12"), "FASTOR_MATMUL_INNER_BLOCK_SIZE": ("c01", "c09", "c17", "c10", "c12"),
+                "FASTOR_TRANS_OUTER_BLOCK_SIZE": ("c14", "c09"), "FASTOR_TRANS_INNER_BLOCK_SIZE": ("c14", "c09"), "FASTOR_DONT_PERFORM_OP_MIN": ("c15", "c03"),
+                "FASTOR_USE_VECTORISED_EXPR_ASSIGN": ("c05", "c18", "c19", "c20", "c04"), "CONTRACT_OPT": ("c03", "c14", "c15"), "FASTOR_ZERO_INITIALISE": "*",
+                "FASTOR_DISPATCH_DIV_TO_MUL_EXPR": ("c16", "c20", "c05"), "FASTOR_DISABLE_SPECIALISED_CTR": ("c04", "c05", "c18", "c02"),
+                "FASTOR_ENABLE_RUNTIME_CHECKS": "*", "FASTOR_COPY_EXPR": ("c02", "c09", "c16", "c04")}
 _excluded = {"n": 0}
 
 
@@ -85,7 +93,7 @@ def known_case_patterns():
 
 
 def corpus(tier, seed):
-    per_prop = 16 if tier == "quick" else 80
+    per_prop = 5 if tier == "quick" else 40
     pats = known_case_patterns()
     groups = []      # (owner, headers, prelude, mode, extra flags, [cases], unit params)
     _excluded["n"] = 0
@@ -100,17 +108,19 @@ def corpus(tier, seed):
         pool = [u for u in theirs if u.config.name == first and not u.config.macros]
         r = random.Random("%s/c06pick/%s" % (seed, name))
         r.shuffle(pool)
-        got = 0
+        # all entries of an owner come from ONE of its units (one prelude, one translation unit per configuration);
+        # the thorough tier takes a second unit for variety
+        got_units = 0
         for u in pool:
-            if got >= per_prop: break
+            if got_units >= (1 if tier == "quick" else 2): break
             cand = list(u.cases); r.shuffle(cand)
             take = []
             for c in cand:
                 if any(re.search(p, c.id) for p in pats): _excluded["n"] += 1; continue
                 take.append(c)
-                if len(take) >= min(8, per_prop - got): break
+                if len(take) >= per_prop: break
             if not take: continue
-            got += len(take)
+            got_units += 1
             groups.append(dict(owner=name, headers=u.headers, prelude=u.prelude, mode=u.mode, extra=tuple(u.config.extra), cases=take,
                                max_success=min(u.max_success, 10 if tier == "quick" else 25), enum_budget=min(u.enum_budget, 5000),
                                size_floor=u.size_floor, poison=u.poison))
@@ -141,8 +151,10 @@ def plan(tier, seed, rng):
         for g in groups:
             if cfg.macros and cfg.macros[0] == "FASTOR_DISPATCH_DIV_TO_MUL_EXPR" and g["owner"] in ("c02", "c09"):
                 continue
-            if cfg.macros and g["owner"] in ("c10", "c11", "c12", "c13") and tier == "quick":
-                continue      # heavy linear-algebra instances: macro axis in the thorough tier only
+            if cfg.macros:
+                owners = MACRO_OWNERS.get(cfg.macros[0].split("=")[0], "*")
+                if owners != "*" and g["owner"] not in owners:
+                    continue  # the macro cannot reach this owner's code
             c2 = Config(cfg.isa, cfg.std, cfg.opt, cfg.asserts, cfg.compiler, cfg.macros, tuple(cfg.extra) + g["extra"])
             c2.name = cfg.name      # the owner's extra flags (e.g. -ffp-contract=off) are part of the corpus entry, not of the configuration
             u = Unit("C06", c2, g["cases"], g["headers"], mode=g["mode"], max_success=g["max_success"], prelude=g["prelude"],
@@ -154,3 +166,22 @@ def plan(tier, seed, rng):
 
 def evidence_extra(tier, seed):
     return dict(corpus_entries_excluded_for_known_findings_of_other_properties=_excluded["n"], macros_varied=MACROS)
+
+
+def post_failures(failures, units, results):
+    """C06 is about DEPENDENCE on the configuration: an entry that fails identically in every configuration it was built in is a
+    defect of its owning property (reported there), not a configuration dependence; it is tallied and dropped here."""
+    ran, failed = {}, {}
+    for u, r in zip(units, results):
+        for rec in r["records"]:
+            ran.setdefault(rec["case"], set()).add(r["config"])
+            if rec.get("status") != "pass":
+                failed.setdefault(rec["case"], set()).add(r["config"])
+    keep, dropped = [], set()
+    for rec in failures:
+        c = rec["case"]
+        if len(ran.get(c, ())) >= 2 and failed.get(c, set()) == ran.get(c, set()):
+            dropped.add(c)
+            continue
+        keep.append(rec)
+    return keep, dict(entries_failing_in_every_configuration_left_to_their_owner=sorted(dropped)[:50])
